@@ -87,6 +87,7 @@ func (c *cluster) skipModel(why string) {
 		c.modelSkip = why
 		c.tokCut = len(c.toks)
 		c.c01AtCut = !c.lostAcked()
+		c.inconsAtCut = c.inconsistentAttaches
 	}
 }
 
@@ -320,6 +321,7 @@ func runTrace(spec traceSpec, mode string, verbose bool) (res traceResult) {
 	if c.modelSkip != "" {
 		toks = toks[:min(c.tokCut, len(toks))]
 		c01 = c.c01AtCut
+		c.inconsistentAttaches = c.inconsAtCut
 		res.Skipped = c.modelSkip
 	}
 	univ := make([]int, spec.Nodes)
@@ -733,6 +735,8 @@ func main() {
 	verbose := flag.Bool("v", false, "print the event log of every trace on stderr")
 	workers := flag.Int("workers", 0, "parallel worker processes (0 = number of CPUs, at most 12)")
 	worker := flag.Bool("worker", false, "internal: run as a worker process")
+	only := flag.String("only", "", "debugging: run only the generated traces with these names (comma separated)")
+	repeat := flag.Int("repeat", 1, "debugging: run every selected trace this many times")
 	fl := hx.ParseFlags()
 	if *worker {
 		workerLoop(*mode, *verbose)
@@ -777,6 +781,19 @@ func main() {
 		}
 	}
 
+	if *only != "" {
+		var sel []traceSpec
+		for _, sp := range specs {
+			for _, nm := range strings.Split(*only, ",") {
+				if sp.Name == nm {
+					for i := 0; i < *repeat; i++ {
+						sel = append(sel, sp)
+					}
+				}
+			}
+		}
+		specs = sel
+	}
 	nw := *workers
 	if nw <= 0 {
 		nw = runtime.NumCPU()
